@@ -9,8 +9,9 @@ from . import props_c08  # noqa: F401
 from . import props_c10  # noqa: F401
 from . import reconsim
 from . import walksim
+from . import matchsim
 
-OTHER = {'C13': reconsim, 'C15': walksim}
+OTHER = {'C13': reconsim, 'C15': walksim, 'C17': matchsim}
 
 
 def _engine_for(prop):
